@@ -953,7 +953,8 @@ pub fn expand<E: Elem>(key: &str, ctx: &mut Ctx, bounds: &Bounds, with_terminals
             for cap in ['x', 's'] {
                 let mut act = act.clone();
                 act.cap = cap;
-                ctx.case(
+                let mut ticks: u64 = 0;
+                ctx.pilot_case(
                     || format!("state {} terminal {}", key, act.enc()),
                     |c| {
                         c.transitions = 1;
@@ -961,10 +962,36 @@ pub fn expand<E: Elem>(key: &str, ctx: &mut Ctx, bounds: &Bounds, with_terminals
                         let m = model_of(sc, sr, &labels);
                         c.nontrivial((key, act.enc()));
                         c.outcome("terminal");
+                        ledger::arm(u64::MAX);
                         run_terminal(t, &m, &act, c);
+                        ticks = ledger::disarm();
                         ledger_clean::<E>(c, &format!("after terminal {}", act.enc()), 0, true);
                     },
                 );
+                // the same terminal with each call into the element type's own code (Clone, Drop) panicking: whatever
+                // is left is dropped by the unwinding; nothing may be dropped twice, no never-constructed value dropped
+                if E::TRACKED && !E::ZST && cap == 'x' {
+                    for k in 0..ticks {
+                        ctx.case(
+                            || format!("state {} terminal {} with call #{} into the element type panicking", key, act.enc(), k),
+                            |c| {
+                                c.transitions = 1;
+                                let t: TooDee<E> = materialize(sc, sr, &labels, false);
+                                let m = model_of(sc, sr, &labels);
+                                ledger::arm(k);
+                                let _ = guarded(|| run_terminal(t, &m, &act, c));
+                                ledger::disarm();
+                                c.fails.clear();
+                                c.outcome("faulted-terminal");
+                                c.nontrivial((key, act.enc(), k));
+                                let (dd, gd, first) = ledger::problems();
+                                if dd + gd > 0 {
+                                    c.fail("drop:double-after-panic", format!("terminal {} with a panic in {}: {} double / {} garbage drops: {}", act.enc(), ledger::fault_kind(), dd, gd, first.unwrap_or_default()));
+                                }
+                            },
+                        );
+                    }
+                }
             }
         }
     }
